@@ -185,6 +185,25 @@ def _polynomial(t) -> Poly:
         for _ in range(int(_const_val(ch[1]))):
             acc = acc.mul(b)
         return acc
+    if k == z3.Z3_OP_ITE and not z3.is_bool(ch[1]) and not z3.is_int(t):
+        # padding / shifting pattern  ite(c, a, 0)  (or ite(c, 0, a)):  linear in a, so it distributes over a's monomials:
+        # ite(c, sum_i c_i*m_i, 0) = sum_i c_i * ite(c, m_i, 0).  Makes  ite(c, x - d, 0)  and  ite(c, x, 0)  share an atom.
+        pa, pb = polynomial(ch[1]), polynomial(ch[2])
+        side = None
+        if not pb.terms and len(pa.terms) >= 2:
+            side, pp = 1, pa
+        elif not pa.terms and len(pb.terms) >= 2:
+            side, pp = 2, pb
+        if side is not None and len(pp.terms) <= 12:
+            acc = Poly()
+            zero = z3.RealVal(0)
+            for m, c in pp.terms.items():
+                mono = Poly({m: Fraction(1)}, {key_: pp.atoms[key_] for key_, _ in m})
+                mt = mono.to_term()
+                it = z3.If(ch[0], mt, zero) if side == 1 else z3.If(ch[0], zero, mt)
+                key, term = canonical_atom(it)
+                acc = acc.add(Poly.atom(key, term).mul(Poly.const(c)))
+            return acc
     # atom: canonicalise the arguments recursively
     key, term = canonical_atom(t)
     return Poly.atom(key, term)
